@@ -1104,8 +1104,14 @@ def case_decode(case):
             under = RW.tridonic_report(0x12, rtype, f4 if rtype not in (0x73, 0x76) else int.from_bytes(data[4:8], "big"),
                                        seq=seq)
             echo = [] if rtype in (0x73, 0x76) else [RW.tridonic_report(0x12, 0x73, int.from_bytes(data[4:8], "big"), seq=seq)]
+            if case.get("then_answer") is not None:
+                # a report that ends nothing (bus status, information) while the query waits, then the unit's answer
+                return echo + [under, RW.tridonic_report(0x12, 0x72, case["then_answer"], seq=seq)]
             return echo + [under, RW.tridonic_report(0x12, 0x71, 0, seq=seq)]
         out, _w = rig(driver).send(cmd, script=script, start=5)
+        if case.get("then_answer") is not None:
+            return judge_decode(driver, {"kind": "backward", "value": case["then_answer"]}, norm_response(out),
+                                "tridonic-hid report type %#x frame %#x, then the answer %#x" % (rtype, f4, case["then_answer"]))
         if ref["kind"] == "forward":
             ref = {"kind": "none"}          # own echo: consumed as transmit confirmation
         return judge_decode(driver, ref, norm_response(out), "tridonic-hid report type %#x frame %#x" % (rtype, f4))
@@ -1699,6 +1705,10 @@ def _misc_shard(arg):
             pl = range(256) if code in (0x72, 0x77) else (0, 3, 0xFF00, 0x123456)
             for p in pl:
                 cases.append({"kind": "decode", "driver": "tridonic-hid", "code": code, "payload": p})
+        # bus-status reports other than "framing error" end nothing: the answer that follows is the answer
+        for st_ in range(256):
+            if st_ != 3:
+                cases.append({"kind": "decode", "driver": "tridonic-hid", "code": 0x77, "payload": st_, "then_answer": (0x5A + st_) % 256})
     elif part == "decode-legacy-tridonic":
         for origin in (0x11, 0x12, 0x01, 0x13):
             for code in range(256):
